@@ -649,6 +649,9 @@ func run(r *chk.Run) {
 	r.Assume("TINY/MEDIUM/LONG_BLOB type codes are not written to table maps by a server (BLOB with 1..4 length bytes is)")
 	// end-to-end half (engine E2): NULL / empty / absent as the handler sees them
 	e2.RunNullEmptyAbsent(r)
+	e2.RunScale(r, "wide-table")
+	e2.RunSchemaChange(r)
+	e2.RunNested(r)
 	r.SetExhaustive(true)
 }
 
@@ -662,6 +665,12 @@ func replay(kind string, input json.RawMessage) (bool, string) {
 	switch kind {
 	case "history":
 		return e2.ReplayHistory(kind, input)
+	case "scale":
+		return e2.ReplayScale(input)
+	case "schema":
+		return e2.ReplaySchema(input)
+	case "nest":
+		return e2.ReplayNest(input)
 	case "cell":
 		var c Case1
 		if err := json.Unmarshal(input, &c); err != nil {
